@@ -43,6 +43,8 @@ pub struct ConcCase {
     pub mode: Mode,
     /// after the parallel phase request every node again on the main handle
     pub post_all: bool,
+    /// C22: arm a panic at this user-code step of the parallel phase (Some(0) = count only)
+    pub fault_at: Option<u64>,
 }
 
 impl ConcCase {
@@ -92,6 +94,10 @@ pub struct IterResult {
     /// E-os only: the watchdog found the phase stuck
     pub stuck: bool,
     pub created: Vec<(u8, u32, u32, u16, u16)>,
+    /// user-code steps counted during the parallel phase and whether the armed fault fired
+    pub fault_steps: u64,
+    pub fault_fired: bool,
+    pub fault_site: u64,
 }
 
 pub fn node_req(prog: &Prog, n: usize) -> Req {
@@ -135,11 +141,17 @@ pub fn run_iteration(case: &ConcCase, watchdog_secs: u64) -> IterResult {
     });
     runner.ctx.log.push(Rec::Note("parallel-begin"));
     let ctx = runner.ctx.clone();
+    if let Some(at) = case.fault_at {
+        ctx.fault.arm((1 << 15) - 1, at);
+    }
     let back = match case.mode {
         Mode::Readers => run_readers(case, runner, &shared, watchdog_secs),
         Mode::WriterReaders => run_writer_readers(case, runner, &shared, watchdog_secs),
     };
     ctx.log.push(Rec::Note("parallel-end"));
+    let fault_site = ctx.fault.fired_site.load(Ordering::Relaxed);
+    let fault_fired = ctx.fault.fired_site.load(Ordering::Relaxed) != u64::MAX && case.fault_at.unwrap_or(0) != 0;
+    let fault_steps = if case.fault_at.is_some() { ctx.fault.disarm() } else { 0 };
     let mut anomalies = Vec::new();
     let mut post = Vec::new();
     let mut wv = shared.write_violations.lock().unwrap().clone();
@@ -172,6 +184,9 @@ pub fn run_iteration(case: &ConcCase, watchdog_secs: u64) -> IterResult {
         ctx: ctx.clone(),
         stuck,
         created: shared.created.lock().unwrap().clone(),
+        fault_steps,
+        fault_fired,
+        fault_site,
     };
     if !stuck {
         crate::sink::clear();
